@@ -104,3 +104,32 @@ func TestC02CoverAndMany(t *testing.T) {
 		}
 	}
 }
+
+// TestF1sBackendErrors is an authoring aid: which (program, option set) pairs does the SPIR-V backend refuse.
+func TestF1sBackendErrors(t *testing.T) {
+	if os.Getenv("F1S_ERRORS") == "" {
+		t.Skip()
+	}
+	cfgs := append(nagax.SPIRVConfigs(1), c02ExtraConfigs(false)...)
+	rej := map[string][]string{}
+	for _, p := range wgen.F1sPrograms(false) {
+		m, _, err, pn := nagax.Front(p.Src)
+		if err != nil || pn != nil {
+			continue
+		}
+		for _, c := range cfgs {
+			_, err, pn := nagax.SPIRV(m, c.Opts)
+			if err != nil || pn != nil {
+				k := errClass(fmt.Sprint(err, pn))
+				rej[k] = append(rej[k], p.Sig+" ["+c.Label+"]")
+			}
+		}
+	}
+	for k, v := range rej {
+		ex := v
+		if len(ex) > 6 {
+			ex = ex[:6]
+		}
+		fmt.Printf("%5d %s\n      %s\n", len(v), k, strings.Join(ex, "\n      "))
+	}
+}
